@@ -7,6 +7,7 @@ import PhyVerif.Driver.C19
 import PhyVerif.Driver.C20
 import PhyVerif.Driver.C17
 import PhyVerif.Driver.C02
+import PhyVerif.Driver.C03
 open Lean PhyVerif.Driver
 
 def dispatch (j : Json) : R Json := do
@@ -21,6 +22,7 @@ def dispatch (j : Json) : R Json := do
   | "C20" => runC20 op j
   | "C17" => runC17 op j
   | "C02" => runC02 op j
+  | "C03" => runC03 op j
   | _ => .error s!"unknown property {p}"
 
 def handle (line : String) : String :=
